@@ -409,6 +409,10 @@ pub fn phase(args: &Args, master: &Path) -> Report {
     r.merge(r2);
     r.rule.push_str(" ");
     r.rule.push_str(&crate::mkdots::rule(args.thorough));
+    let r3 = crate::mkrace::run_all(args, master);
+    r.merge(r3);
+    r.rule.push_str(" ");
+    r.rule.push_str(&crate::mkrace::rule());
     r.bound("cases", n);
     r.bound("max_components", if args.thorough { 5 } else { 4 });
     r.bound("long_totals", "510 511 512 513 1024 4094 4095 4096");
